@@ -176,6 +176,15 @@ impl Report {
         if self.violations.len() < 12 && keep {
             self.violations.push(v);
         }
+        // DX_FAIL_FAST is set by tools/selftest_par.sh only: a run against a seeded mutant needs the verdict, not
+        // the full exploration, so the first unlisted violation ends it (never writes evidence: DX_NO_EVIDENCE is
+        // set together with it)
+        if std::env::var("DX_FAIL_FAST").is_ok() && std::env::var("DX_NO_EVIDENCE").is_ok() && !self.violations.is_empty() {
+            self.exhaustive = false;
+            let id = self.id.clone();
+            let tier = self.tier;
+            std::mem::replace(self, Report::new(&id, tier)).finish();
+        }
     }
     pub fn n_violations(&self) -> u64 {
         self.n_unlisted
